@@ -91,7 +91,8 @@ func (c *cache) get(logRange dragonboat.LogRange) ([]raftpb.Entry, dragonboat.Lo
 	}
 
 	smallestIndex := c.smallestIndex()
-	if smallestIndex > logRange.LastIndex {
+	// The range is right half-open, a cache starting exactly at LastIndex holds none of the queried entries.
+	if smallestIndex >= logRange.LastIndex {
 		// No queried entries are in the cache.
 		return nil, logRange, appendIndices
 	}
